@@ -19,20 +19,34 @@ Proof.
   intros i r m x t Hn. destruct (N i _ _ Hn) as (s & E & Hq). cbn in E. injection E as <-. exact Hq.
 Qed.
 
-(* the identifier of a flattened pattern is its binders joined by `_` (`__` for a composite pattern that binds nothing) *)
-Theorem C07_flatten_names : forall (T : Type) (ps : list (pat * T)) qs, live_args ps = AOk qs ->
+(* the identifier of a flattened pattern is its binders joined by `_` (`__` for a composite pattern that binds nothing), when no
+   binder is a raw identifier; for raw binders see C07_flat_pat_spec_raw / C07_flatten_names_raw *)
+Theorem C07_flatten_names : forall (T : Type) (ps : list (pat * T)) qs,
+  forallb no_raw (flat_map binders (map fst ps)) = true -> live_args ps = AOk qs ->
   map fst qs = map (fun q => join (words (fst q))) ps.
-Proof. intros T ps qs H. apply live_args_ok in H. exact (flat_from_names ps [] qs H). Qed.
+Proof. intros T ps qs G H. apply live_args_ok in H. exact (flat_from_names ps [] qs G H). Qed.
+
+(* raw binders (`r#type`, each with at most one `r#`): a pattern with a single word keeps it as it is, raw or not; two or more
+   words lose their `r#` (format_ident! with explicit arguments), nested patterns included *)
+Theorem C07_flat_pat_spec_raw : forall p, forallb ident_like (binders p) = true ->
+  flat_pat p = if supported p then (if is_rest p then FSkip else FName (spec_words (words p))) else FAbort.
+Proof. exact flat_pat_spec_raw. Qed.
+
+Theorem C07_flatten_names_raw : forall (T : Type) (ps : list (pat * T)) qs,
+  forallb ident_like (flat_map binders (map fst ps)) = true -> live_args ps = AOk qs ->
+  map fst qs = map (fun q => spec_words (words (fst q))) ps.
+Proof. intros T ps qs G H. apply live_args_ok in H. exact (flat_from_names_raw ps [] qs G H). Qed.
 
 (* the macro expands exactly when every parameter is of a documented pattern form, the identifiers are pairwise distinct and no
-   flattened pattern produces a name the generated code binds itself; in every other case it answers with a diagnostic *)
-Theorem C07_flatten_total : forall (T : Type) (ps : list (pat * T)),
-  (exists qs, live_args ps = AOk qs) <->
-  forallb (fun q => supported_param (fst q)) ps = true /\ NoDup (names ps) /\ no_flat_reserved ps.
+   flattened pattern produces a name the generated code binds itself; in every other case it answers with a diagnostic
+   (no raw binders: the identifiers are then the plain names; FlattenThm.raw_guard_needed shows the guard is needed) *)
+Theorem C07_flatten_total : forall (T : Type) (ps : list (pat * T)), forallb no_raw (flat_map binders (map fst ps)) = true ->
+  ((exists qs, live_args ps = AOk qs) <->
+   forallb (fun q => supported_param (fst q)) ps = true /\ NoDup (names ps) /\ no_flat_reserved ps).
 Proof.
-  intros T ps. split.
-  - intros (qs & H). apply live_args_ok in H. destruct (proj1 (flat_from_ok_iff ps []) (ex_intro _ qs H)) as (A & B & _ & C). auto.
-  - intros (A & B & C). destruct (proj2 (flat_from_ok_iff ps [])) as (qs & H); [repeat split; auto|]. exists qs. apply live_args_ok, H.
+  intros T ps G. split.
+  - intros (qs & H). apply live_args_ok in H. destruct (proj1 (flat_from_ok_iff ps [] G) (ex_intro _ qs H)) as (A & B & _ & C). auto.
+  - intros (A & B & C). destruct (proj2 (flat_from_ok_iff ps [] G)) as (qs & H); [repeat split; auto|]. exists qs. apply live_args_ok, H.
 Qed.
 
 (* `ref` / `mut` anywhere in a pattern never changes the generated identifier *)
@@ -40,7 +54,7 @@ Theorem C07_ref_mut_irrelevant : forall p, flat_pat (strip_all p) = flat_pat p.
 Proof. exact strip_all_flat. Qed.
 
 (* distinct identifiers OR a diagnostic: whenever the flattening succeeds the handle parameters are pairwise distinct and none
-   of the flattened ones is reserved - no guard on the binders any more *)
+   of the flattened ones is reserved - no guard on the binders any more, raw binders included *)
 Theorem C07_distinct_or_diag : forall (T : Type) (ps : list (pat * T)),
   match live_args ps with
   | AOk qs => NoDup (map fst qs) /\ no_flat_reserved ps
@@ -50,12 +64,13 @@ Proof.
   intros T ps. destruct (live_args ps) as [qs| |] eqn:H; auto. apply live_args_ok in H. exact (flat_distinct ps qs H).
 Qed.
 
-(* the diagnostic is not spurious: documented patterns with distinct `_`-free binders, no empty composite pattern and no flattened
-   reserved name always expand *)
-Theorem C07_no_spurious_diag : forall (T : Type) (ps : list (pat * T)), forallb (fun q => supported_param (fst q)) ps = true ->
+(* the diagnostic is not spurious: documented patterns with distinct `_`-free binders none of which is raw (`(r#a, b)` and
+   `(a, r#b)` are both flattened to `a_b`), no empty composite pattern and no flattened reserved name always expand *)
+Theorem C07_no_spurious_diag : forall (T : Type) (ps : list (pat * T)), forallb no_raw (flat_map binders (map fst ps)) = true ->
+  forallb (fun q => supported_param (fst q)) ps = true ->
   plain_words (map fst ps) = true -> NoDup (flat_map binders (map fst ps)) -> no_flat_reserved ps ->
   exists qs, live_args ps = AOk qs.
-Proof. intros T ps S P N R. destruct (flat_no_spurious ps S P N R) as (qs & H). exists qs. apply live_args_ok, H. Qed.
+Proof. intros T ps G S P N R. destruct (flat_no_spurious ps G S P N R) as (qs & H). exists qs. apply live_args_ok, H. Qed.
 
 (* the former counterexamples (`(a, b)` with `a_b`; `(..)` with `[..]`; `(inter, send)`) are naming-conflict diagnostics *)
 Theorem C07_collision_diag : live_args collide_witness = AConflict "a_b"%string /\ NoDup (flat_map binders (map fst collide_witness))
@@ -112,6 +127,8 @@ Proof. exact capture_rejected. Qed.
 
 Print Assumptions C07_flatten_positions.
 Print Assumptions C07_flatten_names.
+Print Assumptions C07_flat_pat_spec_raw.
+Print Assumptions C07_flatten_names_raw.
 Print Assumptions C07_flatten_total.
 Print Assumptions C07_ref_mut_irrelevant.
 Print Assumptions C07_distinct_or_diag.
